@@ -791,8 +791,11 @@ fn child_main(rest: &[String]) {
             }
         });
     }
+    // optional 6th argument: CPU allowance in seconds (phase 2 is more generous than the filter pass,
+    // so that an input just under the filter's limit cannot die of the watchdog later)
+    let base_limit: u64 = rest.get(5).and_then(|x| x.parse().ok()).unwrap_or(EVAL_CPU_LIMIT_S);
     let arm = |inp: &Input| {
-        limit.store(if inp.prelude { EVAL_CPU_LIMIT_PRELUDE_S } else { EVAL_CPU_LIMIT_S } * 1000, Ordering::SeqCst);
+        limit.store(if inp.prelude { EVAL_CPU_LIMIT_PRELUDE_S.max(base_limit) } else { base_limit } * 1000, Ordering::SeqCst);
         started_wall.store(t0.elapsed().as_millis() as u64 + 1, Ordering::SeqCst);
         started.store(cpu_ms() + 1, Ordering::SeqCst);
     };
@@ -903,7 +906,9 @@ struct Job {
 impl Job {
     /// the last argument of every child invocation is an output path: stderr goes next to it
     fn stderr_path(&self) -> String {
-        format!("{}.stderr", self.args.last().expect("job args"))
+        // `child`: the progress path (5th argument); `seqchild`: the observation path (last argument)
+        let a = if self.args.first().map(|x| x == "child").unwrap_or(false) { &self.args[5] } else { self.args.last().expect("job args") };
+        format!("{}.stderr", a)
     }
 }
 
@@ -1475,7 +1480,7 @@ fn real_main() {
         attempt: usize,
         inputs: Vec<Input>,
     }
-    let mk_job = |p: &Pending, out: &Path, timeout: Duration| -> Job {
+    let mk_job = |p: &Pending, out: &Path, timeout: Duration, cpu_limit: u64| -> Job {
         let stem = format!("{}.{}", fname(&p.label), p.attempt);
         let f = out.join(format!("in-{}.tsv", stem));
         write_inputs(&f, &p.inputs);
@@ -1488,6 +1493,7 @@ fn real_main() {
                 out.join(format!("obs-{}.tsv", stem)).to_string_lossy().into(),
                 out.join(format!("trace-{}.tsv", stem)).to_string_lossy().into(),
                 out.join(format!("progress-{}.tsv", stem)).to_string_lossy().into(),
+                cpu_limit.to_string(),
             ],
             timeout,
         }
@@ -1520,7 +1526,7 @@ fn real_main() {
         }
     }
     while !pending.is_empty() {
-        let jobs: Vec<Job> = pending.iter().map(|p| mk_job(p, &args.out, child_timeout)).collect();
+        let jobs: Vec<Job> = pending.iter().map(|p| mk_job(p, &args.out, child_timeout, EVAL_CPU_LIMIT_S)).collect();
         n_jobs += jobs.len();
         let res = run_jobs(jobs, workers);
         let mut next = Vec::new();
@@ -1563,7 +1569,7 @@ fn real_main() {
     }
     let mut final_stem: BTreeMap<String, String> = BTreeMap::new();
     while !pending.is_empty() {
-        let jobs: Vec<Job> = pending.iter().map(|p| mk_job(p, &args.out, child_timeout)).collect();
+        let jobs: Vec<Job> = pending.iter().map(|p| mk_job(p, &args.out, child_timeout, 4 * EVAL_CPU_LIMIT_S)).collect();
         n_jobs += jobs.len();
         let res = run_jobs(jobs, workers);
         let mut next = Vec::new();
